@@ -259,6 +259,12 @@ impl Expr {
                         _ => bail!("invalid left operand for {op} (cannot apply to {})", lhs.for_type(flags)?),
                     }
                 } else {
+                    if let (Op::Unwrap, Expr::Value(Value::Ident(ident))) = (op, lhs.as_ref()) {
+                        if ident.is_const() {
+                            bail!("cannot store into {} using ?=, because it is const", ident.name())
+                        }
+                    }
+
                     Cow::Owned(lhs.for_type(flags)?)
                 };
 
